@@ -90,22 +90,23 @@ def run_fixed(L, scale, N, mode, cfg, zero=False):
         exp_int = spec.round_div_pow10(m, x, k, mode) if k >= 1 else x * 10 ** (-k)       # expected unscaled integer at scale N
         exp_mag = z3.If(exp_int >= 0, exp_int, -exp_int)
         limit = cfg['FMT_MAX_INTEGER_PADDING']
-        if num['exp'] is None:
+        pad = (-scale) + (N + 1 if N > 0 else 0)
+        beyond = scale <= 0 and pad > limit
+        if beyond:
+            # integer whose zero padding would exceed the limit: printed unpadded (exponent kept if any), value exact
+            m.labels.add('fixed: unpadded beyond the padding limit')
+            e = num['exp'] if num['exp'] is not None else 0
+            ee = m.concretize(e) if is_sym(e) else e
+            lhs_p, rhs_p = ee - num['frac'], -scale
+            M = min(lhs_p, rhs_p)
+            obl.append(('unpadded output denotes the exact value', num['mant'] * 10 ** (lhs_p - M) != z3.If(x >= 0, x, -x) * 10 ** (rhs_p - M)))
+        elif num['exp'] is None:
             m.labels.add('fixed: padded/rounded numeral')
             obl.append(('exactly N digits after the point', num['frac'] != N))
             obl.append(('decimal point present iff N > 0', num['dot'] != (N > 0)))
             obl.append(('digits are the correctly rounded value', num['mant'] != exp_mag))
         else:
-            # unpadded integer keeping its exponent: allowed only beyond the padding limit, value exact
-            m.labels.add('fixed: unpadded beyond the padding limit')
-            pad = (-scale) + (N + 1 if N > 0 else 0)
-            obl.append(('exponent kept only when the zero padding would exceed the limit', not (scale < 0 and pad > limit)))
-            e = num['exp']
-            ee = m.concretize(e) if is_sym(e) else e
-            # mant * 10^(ee - frac) == |x| * 10^-scale
-            lhs_p, rhs_p = ee - num['frac'], -scale
-            M = min(lhs_p, rhs_p)
-            obl.append(('unpadded output denotes the exact value', num['mant'] * 10 ** (lhs_p - M) != z3.If(x >= 0, x, -x) * 10 ** (rhs_p - M)))
+            obl.append(('exponent kept only when the zero padding would exceed the limit', True))
         # sign handed to pad_integral: non-negative flag must match the sign of the value (zero prints without '-')
         obl.append(('sign passed to the formatter', nn != (True if zero else m.branch_bool(x >= 0)) if False else False))
         return obl
@@ -182,9 +183,13 @@ def confirm(v, mode):
     if kind == 'fixed':
         k = t['scale'] - t['N']
         ei = spec.py_round_div_pow10(x, k, mode) if k >= 1 else x * 10 ** (-k)
-        if 'e' in body:
-            mo = re.fullmatch(r'(\d+)(?:\.(\d+))?e([+-]?\d+)', body)
-            ok = bool(mo) and Fraction(int(mo.group(1) + (mo.group(2) or ''))) * Fraction(10) ** (int(mo.group(3)) - len(mo.group(2) or '')) == abs(exact)
+        limit = t['cfg']['FMT_MAX_INTEGER_PADDING'] if 'cfg' in t and 'FMT_MAX_INTEGER_PADDING' in t['cfg'] else 1000
+        pad = (-t['scale']) + (t['N'] + 1 if t['N'] > 0 else 0)
+        if t['scale'] <= 0 and pad > limit:
+            mo = re.fullmatch(r'(\d+)(?:\.(\d+))?(?:e([+-]?\d+))?', body)
+            ok = bool(mo) and Fraction(int(mo.group(1) + (mo.group(2) or ''))) * Fraction(10) ** (int(mo.group(3) or 0) - len(mo.group(2) or '')) == abs(exact)
+        elif 'e' in body:
+            ok = False
         else:
             mo = re.fullmatch(r'(\d+)(?:\.(\d+))?', body)
             ok = bool(mo) and len(mo.group(2) or '') == t['N'] and int(mo.group(1) + (mo.group(2) or '')) == abs(ei)
